@@ -229,10 +229,16 @@ func (e *Enc) instr(fr *Frame, in ssa.Instruction, st *State, rb Term) (*State, 
 		idx := e.value(fr, x.Index).T
 		switch bt := x.X.Type().Underlying().(type) {
 		case *types.Slice:
-			e.safety(fr, "safety.index", rb, and("(<= 0 "+idx+")", "(< "+idx+" (sl_len "+base.T+"))"), x.Pos())
+			inRange := and("(<= 0 "+idx+")", "(< "+idx+" (sl_len "+base.T+"))")
+			e.safety(fr, "safety.index", rb, inRange, x.Pos())
 			a := &Addr{Comp: e.elemComp(bt.Elem()), Ref: "(sl_ref " + base.T + ")", Typ: bt.Elem(), Root: types.NewArray(bt.Elem(), 0),
 				Path: []PathStep{{IsIndex: true, Index: "(+ (sl_off " + base.T + ") " + idx + ")"}}}
 			fr.vals[x] = Val{T: e.addrTerm(a), Typ: x.Type(), Addr: a}
+			// execution continues past the index expression only when the index was in range
+			// (otherwise the run-time panics)
+			if _, isConst := x.Index.(*ssa.Const); isConst {
+				rb = e.sc.Define("inrange_"+x.Name(), "Bool", and(rb, inRange))
+			}
 		case *types.Pointer:
 			at := bt.Elem().Underlying().(*types.Array)
 			e.nilCheck(fr, base, rb, x.Pos())
@@ -323,6 +329,7 @@ func (e *Enc) instr(fr *Frame, in ssa.Instruction, st *State, rb Term) (*State, 
 		return st, rb
 	case *ssa.MakeInterface:
 		e.set(fr, x, e.makeIface(e.value(fr, x.X), x.X.Type()))
+		e.plainErrorValue(fr.vals[x], x.X.Type(), st, rb)
 		return st, rb
 	case *ssa.ChangeInterface:
 		v := e.value(fr, x.X)
